@@ -100,6 +100,40 @@ Definition shard_keys_agree (l : list (string * string * string)) : bool :=
 Definition single_txn (l : list (string * nat * nat)) : bool :=
   forallb (fun t => Nat.eqb (snd (fst t)) 1 && Nat.eqb (snd t) 0) l.
 
+(* the order in which a request writes its data, for the sites whose serialisability argument
+   uses it.  A merge makes supervoxels cleavable from the target by putting them into the target's
+   index: the mapping must say "target" BEFORE that, or a cleave that already sees them there is
+   overwritten by the merge's late mapping write.  A cleave takes supervoxels out of the index
+   first and re-maps them afterwards. *)
+Definition required_write_order : list (string * list string) :=
+  [("labelmap.MergeLabels", ["mapping"; "target"; "merged"]);
+   ("labelmap.CleaveLabel", ["cleaved"; "target"; "mapping"])].
+Definition str_list_eqb (a b : list string) : bool := list_eqb String.eqb a b.
+Definition write_order_ok (tbl : list (string * list string)) : bool :=
+  forallb (fun req => match find (fun e => String.eqb (fst e) (fst req)) tbl with
+                      | Some e => str_list_eqb (snd e) (snd req)
+                      | None => false
+                      end) required_write_order.
+
+(* a request must be refused by a check made in the same critical section as the write it guards:
+   a check under another acquisition of the lock can be stale when the write happens.  Exceptions
+   (recorded, open): MergeLabels validates target and merged bodies when it starts; the target's
+   existence is checked again inside addToLabelIndex, the merged bodies are not (two merges naming
+   the same merged body). *)
+Definition allowed_outside_checks : list (string * string * nat) :=
+  [("labelmap.MergeLabels", "target", 3%nat); ("labelmap.MergeLabels", "merged", 3%nat)].
+Definition checks_ok (tbl : list (string * string * nat * nat)) : bool :=
+  forallb (fun e =>
+             let site := fst (fst (fst e)) in
+             let l := snd (fst (fst e)) in
+             let outside := snd (fst e) in
+             let allowed := match find (fun a => String.eqb (fst (fst a)) site && String.eqb (snd (fst a)) l)
+                                       allowed_outside_checks with
+                            | Some a => snd a
+                            | None => 0%nat
+                            end in
+             Nat.leb outside allowed) tbl.
+
 Definition find_site (name : string) : option gsite :=
   find (fun s => String.eqb (gs_name s) name) lock_table.
 
@@ -356,6 +390,9 @@ Inductive mode :=
 | Sched (rs : list sreq) (word : list nat) (blocked : option (nat * nat))
     (* requests 1..n stop at their yield points; word: which request runs its next segment;
        blocked = (position in the word, request index) of the first grant that ended in a mutex wait *)
+| Fine (word : list nat) (blocked : option (nat * nat))
+    (* as Sched, but the requests also stop before every read-write transaction of the storage engine
+       (yield points the model does not have): judged by the oracle only *)
 | Stress (n : nat)                           (* n concurrent requests, ids 1..n *)
 | Live (yield : string) (blocked : bool)     (* as Forced, at a yield point that is not part of the site's model *)
 | Hang (n : nat) (yield : string).           (* the requests never finished (deadlock): n requests, held at yield ("" = stress) *)
@@ -410,6 +447,7 @@ Definition model_ok (c : c11case) : bool :=
                  end) (c_obs c)
     end
   | Live _ _ => true
+  | Fine _ _ => true
   | Hang _ _ => true      (* liveness is outside the model: judged by the oracle only *)
   | Forced2 site2 y blocked =>
     match find_site (c_site c), find_site site2 with
@@ -500,7 +538,7 @@ Definition kind_sched (c : c11case) : nat :=
   else 0%nat
   end.
 
-Definition is_sched (m : mode) : bool := match m with Sched _ _ _ => true | _ => false end.
+Definition is_sched (m : mode) : bool := match m with Sched _ _ _ => true | Fine _ _ => true | _ => false end.
 
 Definition kind_of (c : c11case) : nat :=
   if is_hang (c_mode c) then 5%nat
